@@ -29,6 +29,11 @@ CLAIMED = {
         text="Unbounded theorems over any field: Paint.breadth_first and a depth-first enumeration visit the same contexts (queue invariant); under the invariant the compiler establishes (at most one transform paint above a PaintGlyph, glyph-free fills) the (glyph, transform, fill) triples consumed by _colr0_layers/_glyf_ufo/_bounds are exactly the placements of the COLR rendering semantics; with nested transforms the walk composes in the wrong order (machine-checked witness; latent, unreachable from nanoemoji's trees). The walk's model is tied to the code by evaluating it in Coq on generated trees. End to end: generated sources x configurations x {glyf_colr_0, cff_colr_0, cff2_colr_0, glyf} are built by the real code: COLRv0 layers compared in z-order with CPAL colour+alpha (solid sources), outlines matched one-to-one with placed source shapes (any source), base glyph bounds cover layers, glyf contours match sources one-to-one.",
         ref="DESIGN.md 8 C03",
     ),
+    "C04": dict(
+        technique="machine-checked proof in Coq (shaping theorem for every set of sequences: cmap + longest-first ligatures reach exactly the source's glyph; blank-glyph bookkeeping) + reference shaper run on real builds in all 13 formats",
+        text="Unbounded theorems: for every glyph-naming function whose single-codepoint names are pairwise distinct and every set of sequences (prefixes/extensions of one another, shared components), shaping a multi-codepoint source sequence yields exactly its glyph and a single codepoint is left to cmap; every codepoint that occurs in a sequence has a glyph (its own source's or a blank one) and blanks never shadow a source; the advance rule. End to end: generated sequence sets (ZWJ/VS16/tag characters, names over 63 characters) x all 13 colour formats x configurations are built by the real code; a reference shaper (cmap + GSUB ligatures in stored order) on the reloaded binary must reach, for each source, a distinct glyph carrying that source's identifying artwork (COLR/glyf/OT-SVG picture or PNG bytes) with the right advance; .notdef, space and blank glyphs checked. Known finding F3 (g_ prefix collision) steered around and witnessed.",
+        ref="DESIGN.md 8 C04",
+    ),
     "C05": dict(
         technique="machine-checked proof in Coq (lia/lra theorems about the clip-box computation) + correspondence by vm_compute + independent COLR placement semantics evaluated on the implementation's boxes",
         text="Unbounded theorems: every control point fed to the bounds computation lies in the emitted box widened by the half unit otRound may move an edge; quantised edges are multiples of the step, at most one step outward; no box iff nothing painted; the assertion is unreachable. Model tied to write_font._bounds/_quantize_bounding_rect by evaluating it in Coq on generated paint trees and glyph environments; the implementation's boxes are also judged against placements computed by an independent COLR semantics.",
